@@ -249,6 +249,7 @@ func RunOne(t *testing.T, spec *Spec, run int, scen Scenario, keepLog bool) (rr 
 				}
 			}()
 			scen(w, spec)
+			w.Logf("end of scenario")
 			w.finished = true
 		})
 	}()
